@@ -15,8 +15,9 @@ from luqum.parser import parser
 
 CONFIGS = []
 for default in ("should", "must"):
-    for nested in (None, {"n": ["x", "y"]}, {"n": {"x": None, "y": None, "m": ["z"]}}):
-        for objs, subs in ((None, None), (["o.x"], None), (["o.x"], ["t.raw"]), ({"o": ["x"]}, ["t.raw", "n.x.raw"])):
+    for nested in (None, {"n": ["x", "y"]}, {"n": {"x": None, "y": None, "m": ["z"]}}, {"n": {"m": ["z"]}}):
+        for objs, subs in ((None, None), (["o.x"], None), (["o.x"], ["t.raw"]), ({"o": ["x"]}, ["t.raw", "n.x.raw"]),
+                           (["o.x"], []), ([], ["t.raw"]), ([], []), ({}, ())):      # declared but empty is not `undeclared`
             CONFIGS.append({"default_operator": default, "nested_fields": nested, "object_fields": objs, "sub_fields": subs})
 
 EXTRA = ["o:c", "n:d", "o.y:c", "t.raw:b", "n:(m:g)", "n.m:g", "o:(x:c)", "o:(y:c)", "q.r:s", "n:(x:d OR z)", "n.x.raw:d",
@@ -65,6 +66,7 @@ def check(item):
             got = type(e).__name__
         if got != exp:
             fails.append({"input": q, "tree": kind, "config": ci, "signature": "%s/%s" % (got, exp),
+                          "touches_leafless_nested_level": R.touches_leafless_level(t, cfgd["nested_fields"]),
                           "observation": "builder %s, expected %s for %r with %r" %
                           ("raised " + got if got else "translated", "an " + exp if exp else "a translation", t, cfgd)})
     return n, fails[:2]
